@@ -50,6 +50,7 @@ def parse_args(argv=None):
     ap.add_argument("--workers", type=int, default=int(os.environ.get("VERIF_WORKERS", "0")) or (os.cpu_count() or 4))
     ap.add_argument("--budget", type=float, default=None, help="wall seconds for the exploration phase")
     ap.add_argument("--runs", type=int, default=None)
+    ap.add_argument("--no-harvest", action="store_true", help="development: skip the harvested-session phase")
     ap.add_argument("--digests", default=None, help="comma separated run seeds: print {seed: digest} json and exit")
     return ap.parse_args(argv)
 
@@ -270,6 +271,13 @@ def preload():
     import pysmt.shortcuts  # noqa: F401
     import sim.eqv_sim, sim.eqv_api_sim, sim.seams, sim.kernel, sim.shrink, sim.state  # noqa: F401,E401
 
+    # solver seam: a deterministic resource budget per z3 query (z3's rlimit counts internal steps, not
+    # wall time).  exo sets no timeout, and z3 occasionally never returns on a quantified div/mod query;
+    # with the budget such a query answers `unknown`, which exo turns into an error (the F2 outcome).
+    # 0 disables.  Harvested repository tests run without it (sim.harvest resets it to 0).
+    z3.set_param("rlimit", int(os.environ.get("VERIF_Z3_RLIMIT", "20000000")))
+    sim.state.memoise_pysmt_factory()
+    sim.state.fast_inspect_stack()
     sim.state.snapshot_base()
 
 
